@@ -52,10 +52,12 @@ type Ctx struct {
 	Notes     []string
 }
 
-func NewCtx(p *Program, prop string) *Ctx {
+func NewCtx(p *Program, prop string) (c *Ctx) {
 	curProg = p
 	constTables = nil
-	return &Ctx{Program: p, Prop: prop, min: map[string]int{}, rules: map[string]string{}}
+	c = &Ctx{Program: p, Prop: prop, min: map[string]int{}, rules: map[string]string{}}
+	c18GroupsField(c)
+	return c
 }
 
 // Rule declares a rule with its description and the minimum number of
